@@ -1,9 +1,130 @@
 import WzVerif.Driver.Proto
+import WzVerif.Model.Multipart
 namespace Wz.Driver.C01
-open Wz Wz.Proto
+open Wz Wz.Proto Wz.Multipart
 
-/-- stub: no model commands yet -/
+/-! Line protocol of the form-parsing models (shared by C01 / C10 / C02 drivers).
+
+`mp.kernels  bnd buf pos`             regex kernels on one buffer
+`mp.decode   bnd maxMem maxParts chunks`   events of `decodeChunks` (+ buffer length after each receive)
+`mp.form     bnd maxMem maxParts bufSize sched body`   `MultiPartParser.parse`
+`mp.encode   bnd events`              `MultipartEncoder.send_event` over a list of events
+`mp.options  value`                   `parse_options_header`
+-/
+
+def listArg (f : String → Option α) (s : String) : Option (List α) :=
+  if s == "[]" then some [] else (s.splitOn ",").mapM f
+
+def outStr (s : Str) : String := hexStr s
+def outOptStr : Option Str → String := outOpt outStr
+
+def outHeaders (h : Headers) : String :=
+  if h.isEmpty then "[]" else "&".intercalate (h.map fun (k, v) => outStr k ++ "=" ++ outStr v)
+
+def outEvent : Event → String
+  | .preamble d => "P:" ++ hex d
+  | .field n h => "F:" ++ outOptStr n ++ ":" ++ outHeaders h
+  | .file n f h => "U:" ++ outOptStr n ++ ":" ++ outStr f ++ ":" ++ outHeaders h
+  | .data d m => "D:" ++ hex d ++ ":" ++ outBool m
+  | .epilogue d => "E:" ++ hex d
+  | .needData => "N"
+
+def outErr : Option String → String
+  | none => "ok"
+  | some e => "EXC:" ++ e
+
+def outTriple : Option (Nat × Nat × Bool) → String
+  | none => "~"
+  | some (s, e, f) => s!"{s}.{e}.{outBool f}"
+
+def outPair : Option (Nat × Nat) → String
+  | none => "~"
+  | some (s, e) => s!"{s}.{e}"
+
+/-- buffer length after each successful `receive_data` (what `len(decoder.buffer)` shows) -/
+def bufLens : Decoder → List Bytes → List Nat
+  | _, [] => []
+  | d, c :: cs =>
+    match receive d (some c) with
+    | .error _ => []
+    | .ok d' =>
+      let r := drain (drainFuel d') d' []
+      d'.buffer.length :: (if r.err.isSome then [] else bufLens r.dec cs)
+
+def parseEvent (s : String) : Option Event :=
+  match s.splitOn ":" with
+  | ["P", d] => (unhex d).map .preamble
+  | ["F", n, h] => do
+    let n ← optArg unhexStr n
+    let h ← hdrs h
+    pure (.field n h)
+  | ["U", n, f, h] => do
+    let n ← optArg unhexStr n
+    let f ← unhexStr f
+    let h ← hdrs h
+    pure (.file n f h)
+  | ["D", d, m] => do
+    let d ← unhex d
+    let m ← boolArg m
+    pure (.data d m)
+  | ["E", d] => (unhex d).map .epilogue
+  | _ => none
+where
+  hdrs (h : String) : Option Headers :=
+    if h == "[]" then some [] else
+    (h.splitOn "&").mapM fun kv =>
+      match kv.splitOn "=" with
+      | [k, v] => do
+        let k ← unhexStr k
+        let v ← unhexStr v
+        pure (k, v)
+      | _ => none
+
 def handle : Handler
+  | "mp.kernels", [bnd, buf, pos] =>
+    match unhex bnd, unhex buf, natArg pos with
+    | some bnd, some buf, some pos =>
+      some (";".intercalate [
+        "pre=" ++ outTriple (searchDelimFrom bnd true pos buf),
+        "bnd=" ++ outTriple (searchDelimFrom bnd false pos buf),
+        "blank=" ++ outPair (searchBlankFrom pos buf),
+        "lb=" ++ toString (lbLen buf),
+        "fold=" ++ hex (foldContinuations buf),
+        "ln=" ++ toString (lastNewline buf),
+        "lnpy=" ++ toString (lastNewlinePy buf),
+        "lines=" ++ outList hex (splitLines buf),
+        "strip=" ++ hex (stripBytes buf),
+        "find=" ++ outBool (containsSub (45 :: 45 :: bnd) buf)])
+    | _, _, _ => some badArgs
+  | "mp.decode", [bnd, mm, mp, chunks] =>
+    match unhex bnd, optArg natArg mm, optArg natArg mp, listArg unhex chunks with
+    | some bnd, some mm, some mp, some chunks =>
+      let r := decodeChunks bnd mm mp chunks
+      some (outList outEvent r.events ++ "|" ++ outErr r.err ++ "|" ++
+        outList toString (bufLens (mkDecoder bnd mm mp) chunks))
+    | _, _, _, _ => some badArgs
+  | "mp.form", [bnd, mm, mp, bs, sched, body] =>
+    match unhex bnd, optArg natArg mm, optArg natArg mp, natArg bs, listArg natArg sched, unhex body with
+    | some bnd, some mm, some mp, some bs, some sched, some body =>
+      match formParse bnd mm mp bs sched body with
+      | .error e => some ("EXC:" ++ e)
+      | .ok (fields, files) =>
+        some (outList (fun (n, v) => outOptStr n ++ "=" ++ outStr v) fields ++ "|" ++
+          outList (fun (f : FileItem) => outOptStr f.name ++ ":" ++ outStr f.filename ++ ":" ++
+            outHeaders f.headers ++ ":" ++ hex f.content) files)
+    | _, _, _, _, _, _ => some badArgs
+  | "mp.encode", [bnd, evs] =>
+    match unhex bnd, listArg parseEvent evs with
+    | some bnd, some evs =>
+      some (match encodeEvents bnd .preamble evs with | .ok b => hex b | .error e => "EXC:" ++ e)
+    | _, _ => some badArgs
+  | "mp.options", [v] =>
+    match unhexStr v with
+    | some v =>
+      some (match FormOptions.parseOptionsHeader v with
+        | .ok (val, opts) => outStr val ++ "|" ++ outHeaders opts
+        | .error e => "EXC:" ++ e)
+    | none => some badArgs
   | _, _ => none
 
 end Wz.Driver.C01
